@@ -53,6 +53,19 @@ CHECKS = {
             "Each case is run with limits {1,2,3,5,|A|,|A|+1} under default and all-off settings; a successful limited run must be "
             "a duplicate-free subset of the unlimited answer of the same settings with exactly min(N,|A|) rows.",
             TB, "7 C08"),
+    "C09": ("rules", "trace validation of generated rules (print / re-parse, four submission modes) against RuleTrace.tla, with "
+            "Datalog!Answer as the oracle for rules inside the fragment of Datalog.tla",
+            "model_checking",
+            "Seeded rules over the rule grammar (constants of every kind in heads, comparisons and body atoms incl. integral floats, "
+            "exponents, strings with separators, booleans, vectors; integer / float / mixed arithmetic with random parentheses; 21 "
+            "function forms; 6 aggregates; negation; two-clause rules). For every rule the parser accepts the real parser + Display are "
+            "run (syntax trees before and after must be equal) and ?head(..) is answered with the rule inline, as a session rule, as a "
+            "persistent rule and after a restart, each on its own graph with the same facts; RuleTrace accepts iff the round trip is "
+            "exact, the four outcomes and row sets (exact tokens: kind and bit pattern) agree, and - for rules inside the integer "
+            "fragment - the rows equal Datalog!Answer.",
+            "The TLA+ part is thin here by nature of the property (print/parse fidelity): the specification compares opaque syntax-tree "
+            "tokens and answer sets, and is an absolute oracle only for the integer fragment (about 40% of the cases). Rule forms the "
+            "engine refuses in every mode alike are not judged. " + TB, "7 C09"),
     "C10": ("session", "TLC-enumerated request interleavings of session scripts (MC_Session.tla, isolation statements model-checked) "
             "submitted to the real Handler; every observed step judged by SessionTrace.tla against Session.tla / Datalog!Answer",
             "model_checking",
@@ -272,6 +285,9 @@ ENGINES.append({"name": "laws", "path": "tools/eng_laws.py", "serves_properties"
                                   "IndexTrace.tla, VecIndexTrace.tla, LawsTrace.tla"})
 ENGINES.append({"name": "proof", "path": "tools/eng_proof.py", "serves_properties": ["C21", "C22", "C23"],
                 "kind_free_text": ".why / .why_not answers of the real Handler judged by spec/ProofTrace.tla over Datalog!Model"})
+ENGINES.append({"name": "rules", "path": "tools/eng_rules.py", "serves_properties": ["C09"],
+                "kind_free_text": "generated rules through the real parser / Display and the four submission modes of the real Handler; "
+                                  "spec/RuleTrace.tla judges round trip, agreement of the modes and Datalog!Answer"})
 ENGINES.append({"name": "incr", "path": "tools/eng_incr.py", "serves_properties": ["C18"],
                 "kind_free_text": "spec/MC_Incr.tla enumerates histories of fact writes / rule registration, removal, drop / incremental on; "
                                   "each runs twice on the real Handler; spec/IncrTrace.tla judges state and answers against Incr.tla"})
